@@ -44,7 +44,7 @@ fn case(cx: &mut Ctx, id: bool, t: u64, memlimit: usize, outlen: usize, pw: &[u8
     } else {
         cx.cover("reference", "argon2_core_only");
     }
-    let mut out = vec![0u8; outlen];
+    let mut out = stale(outlen);
     let r = call(cx, "C09|crypto_pwhash", "crypto_pwhash", c, || crypto_pwhash(&mut out, pw, salt, t, memlimit, alg(id)));
     let Some(r) = r else { return };
     match r {
@@ -225,7 +225,7 @@ pub fn run(cx: &mut Ctx) {
     if cx.mine(0) {
         let pw = b"pw";
         let mut rej = |cx: &mut Ctx, what: &str, outlen: usize, salt: &[u8], ops: u64, mem: usize| {
-            let mut out = vec![0u8; outlen];
+            let mut out = stale(outlen);
             let c = || json!({"rejected_parameter":what,"outlen":outlen,"saltlen":salt.len(),"opslimit":ops,"memlimit":mem});
             if let Some(r) = call(cx, "C09|crypto_pwhash", "crypto_pwhash", c, || crypto_pwhash(&mut out, pw, salt, ops, mem, PasswordHashAlgorithm::Argon2id13)) {
                 expect(cx, &format!("C09|crypto_pwhash|accepts_out_of_range|{}", what.split('=').next().unwrap()), r.is_err(), c);
